@@ -346,8 +346,12 @@ func cmdCheck(args []string) int {
 	ev := Evidence{PropertyID: id, Tier: *tier, Seed: seed, Level: "proof", Coverage: cov, Assumptions: assumptions,
 		WallS: round3(time.Since(start).Seconds()), Violations: violations}
 	data, _ := json.MarshalIndent(ev, "", " ")
-	os.MkdirAll(filepath.Join(verifDir(), "evidence"), 0o755)
-	if err := os.WriteFile(filepath.Join(verifDir(), "evidence", id+".json"), data, 0o644); err != nil {
+	evDir := filepath.Join(verifDir(), "evidence")
+	if d := os.Getenv("VERIF_EVIDENCE_DIR"); d != "" {
+		evDir = d // mutation runs (selftest, seeded changes) must not overwrite the committed evidence
+	}
+	os.MkdirAll(evDir, 0o755)
+	if err := os.WriteFile(filepath.Join(evDir, id+".json"), data, 0o644); err != nil {
 		fmt.Fprintln(os.Stderr, err)
 		return 2
 	}
